@@ -41,11 +41,11 @@ type saCase struct {
 }
 
 type pairRes struct {
-	U, I, D, X                            json.RawMessage
-	Sub, Sube, Sup, Supe, Cmp, Cmpe, Eq   json.RawMessage
-	Cnt, Pow                              json.RawMessage
-	El                                    []struct{ E, W, Wo, M json.RawMessage }
-	Whin, Whout, Wrap, Attr, Coll         json.RawMessage
+	U, I, D, X                          json.RawMessage
+	Sub, Sube, Sup, Supe, Cmp, Cmpe, Eq json.RawMessage
+	Cnt, Pow                            json.RawMessage
+	El                                  []struct{ E, W, Wo, M json.RawMessage }
+	Whin, Whout, Wrap, Attr, Coll       json.RawMessage
 }
 
 func init() {
@@ -551,7 +551,7 @@ func (c *saCtx) chainCase(cs *saCase) {
 			if report {
 				c.fail(opname, l, r, exp[i], "", d, strings.Join(lines, " "))
 			}
-			c.obs.Notes = append(c.obs.Notes, "chain cut at step "+strconv.Itoa(i+1))
+			c.obs.Notes = append(c.obs.Notes, "chain cut at a failing step")
 			break
 		}
 		vals[i] = o.V
